@@ -717,7 +717,7 @@ pub fn finalize_with_monitors(w: &mut World, actor: &str, psbt: &mut Psbt, v: u6
                         w,
                         "C14",
                         "I5-order",
-                        "I5-order".to_string(),
+                        if crate::mon_psbt::cross_input_key_origins(&before) { "I5-order:cross-input-key-origins".to_string() } else { "I5-order".to_string() },
                         format!("finalising the inputs one by one succeeds for {:?} in one order and for {:?} in the opposite order ({})", ok_fwd, ok_rev, how),
                         actor,
                     );
@@ -743,6 +743,11 @@ pub fn finalize_with_monitors(w: &mut World, actor: &str, psbt: &mut Psbt, v: u6
             }
             let complete = before.inputs.iter().all(|inp| inp.witness_utxo.is_some() || inp.non_witness_utxo.is_some());
             if !complete {
+                continue;
+            }
+            // a key that is only known by its hash has to come from the key-origin fields
+            let text = &w.env.inputs[i].spec.text;
+            if (text.contains("pkh(") || text.contains("pk_h(")) && before.inputs[i].bip32_derivation.is_empty() && before.inputs[i].tap_key_origins.is_empty() {
                 continue;
             }
             if crate::mon_ref::ref_exists_std(w, &before, i) == Some(true) {
